@@ -3,10 +3,15 @@
     [OpCensor]: the verdict of the real AcraCensor for one statement; exact-query and pattern results
     of each handler are inputs, the TABLE rule is evaluated by the model on the FROM tree of the
     statement ([rules_of]).  [OpTables]: one evaluation of common.CheckTableNamesMatch.
-    [OpChain]: the chain alone, all three match results as inputs (kept for hand-written cases). *)
+    [OpChain]: the chain alone, all three match results as inputs (kept for hand-written cases).
+    [OpCensorP]: as [OpCensor], and the PATTERN rule is evaluated by the model too: the handlers carry the tree
+    forms of their parsed patterns, the operation the tree form of the parsed statement
+    (Model/CensorPattern.v: check_patterns = common.CheckPatternsMatching); only the exact-query result
+    stays an input. *)
 From Coq Require Import List Bool NArith.
 From Acra Require Import Lib.Bytes Lib.Outcome.
 From Acra Require Export Model.Censor.
+From Acra Require Model.CensorPattern.
 Import ListNotations.
 
 Inductive expected := XOk (vals : list bytes) | XErr | XPanic.
@@ -38,10 +43,58 @@ Definition handler_of (s : stmt_tables) (h : hspec) : handler :=
   | SC => HCapture
   end.
 
+(** a handler as configured, with its `tables:` list and the tree forms of its `patterns:` *)
+Inductive hspecp :=
+| PA (hq mq : bool) (tables : list bytes) (pats : list bytes)
+| PD (hq mq : bool) (tables : list bytes) (pats : list bytes)
+| PAA | PDA | PI (hit : bool) | PC.
+
+(** chunked byte strings of the case files *)
+Definition hbs := CensorTree.hbs.
+
+Fixpoint decode_all (bs : list bytes) : option (list CensorTree.tree) :=
+  match bs with
+  | [] => Some []
+  | b :: tl =>
+      match CensorTree.decode b, decode_all tl with
+      | Some t, Some ts => Some (t :: ts)
+      | _, _ => None
+      end
+  end.
+
+(** len(patterns) != 0 and common.CheckPatternsMatching(patterns, parsedQuery) *)
+Definition pattern_rule (pats : list bytes) (st : CensorTree.tree) : res (bool * bool) :=
+  match decode_all pats with
+  | None => Err 0%N
+  | Some ps =>
+      match CensorPattern.check_patterns ps st with
+      | Ok m => Ok (negb (is_nil pats), m)
+      | Err e => Err e
+      | Panic => Panic
+      end
+  end.
+
+Definition handler_ofp (s : stmt_tables) (st : CensorTree.tree) (h : hspecp) : res handler :=
+  match h with
+  | PA hq mq ts pats => do hm <- pattern_rule pats st; Ok (HAllow (rules_of s hq mq ts (fst hm) (snd hm)))
+  | PD hq mq ts pats => do hm <- pattern_rule pats st; Ok (HDeny (rules_of s hq mq ts (fst hm) (snd hm)))
+  | PAA => Ok HAllowAll
+  | PDA => Ok HDenyAll
+  | PI hit => Ok (HIgnore hit)
+  | PC => Ok HCapture
+  end.
+
+Fixpoint handlers_ofp (s : stmt_tables) (st : CensorTree.tree) (hs : list hspecp) : res (list handler) :=
+  match hs with
+  | [] => Ok []
+  | h :: tl => do x <- handler_ofp s st h; do xs <- handlers_ofp s st tl; Ok (x :: xs)
+  end.
+
 Inductive op :=
 | OpChain (ignore_parse_error has_writer parsed : bool) (hs : list handler)
 | OpTables (set : list bytes) (s : stmt_tables)
-| OpCensor (ignore_parse_error has_writer parsed : bool) (s : stmt_tables) (hs : list hspec).
+| OpCensor (ignore_parse_error has_writer parsed : bool) (s : stmt_tables) (hs : list hspec)
+| OpCensorP (ignore_parse_error has_writer parsed : bool) (s : stmt_tables) (st : bytes) (hs : list hspecp).
 
 Definition flag (b : bool) : bytes := [if b then x01 else x00].
 
@@ -62,6 +115,17 @@ Definition run (o : op) : expected :=
   | OpTables set s => let '(one, all) := check_table_names set s in XOk [flag one; flag all]
   | OpCensor ipe w parsed s hs =>
       XOk [verdict_code (handle_query (Censor ipe w) parsed (map (handler_of s) hs))]
+  | OpCensorP ipe w parsed s st hs =>
+      (* an unparsed statement has no tree: the handlers do not look at their rules then *)
+      match (if parsed then CensorTree.decode st else Some CensorTree.tnil) with
+      | None => XErr
+      | Some t =>
+          match handlers_ofp s t hs with
+          | Ok hl => XOk [verdict_code (handle_query (Censor ipe w) parsed hl)]
+          | Err _ => XErr
+          | Panic => XPanic
+          end
+      end
   end.
 
 Fixpoint list_bytes_eqb (a b : list bytes) : bool :=
